@@ -182,33 +182,41 @@ func (P *Prog) factsOf(fn *ssa.Function) *factResult {
 		if !reach {
 			continue // unreachable block
 		}
-		// a return whose error operand is a phi of its own block is split into
-		// one virtual exit per incoming edge (the `if err == nil { err = f() };
-		// return err` shape): each edge has its own facts and its own value
+		// a return reached over several edges is split into one virtual exit
+		// per incoming edge when that sharpens the verdict (the `if err == nil
+		// { err = f() }; return err` and `if err = f(); err == nil { ... };
+		// return err` shapes): each edge has its own facts and its own values
 		if ei >= 0 && len(b.Preds) > 1 {
-			if ph, isPhi := ret.Results[ei].(*ssa.Phi); isPhi && ph.Block() == b {
-				for i, pred := range b.Preds {
-					pin, ok := r.in[pred]
-					if !ok {
-						continue
-					}
-					fs := P.transferBlock(pin.clone(), pred, nil)
-					if iff, ok := pred.Instrs[len(pred.Instrs)-1].(*ssa.If); ok && pred.Succs[0] != pred.Succs[1] {
-						P.addEdgeFacts(fs, e.of(iff.Cond), pred.Succs[0] == b, iff)
-					}
-					fs = P.transferBlock(fs, b, ret)
-					x := &exitInfo{ret: ret, facts: fs, pred: pred}
-					for _, res := range ret.Results {
-						if rp, ok := res.(*ssa.Phi); ok && rp.Block() == b {
-							x.results = append(x.results, e.of(rp.Edges[i]))
-						} else {
-							x.results = append(x.results, e.of(res))
-						}
-					}
-					x.errTerm = x.results[ei]
-					x.kind, x.delegated = P.classifyErr(x.errTerm, fs)
-					r.exits = append(r.exits, x)
+			var vx []*exitInfo
+			for i, pred := range b.Preds {
+				pin, ok := r.in[pred]
+				if !ok {
+					continue
 				}
+				fs := P.transferBlock(pin.clone(), pred, nil)
+				if iff, ok := pred.Instrs[len(pred.Instrs)-1].(*ssa.If); ok && pred.Succs[0] != pred.Succs[1] {
+					P.addEdgeFacts(fs, e.of(iff.Cond), pred.Succs[0] == b, iff)
+				}
+				fs = P.transferBlock(fs, b, ret)
+				x := &exitInfo{ret: ret, facts: fs, pred: pred}
+				for _, res := range ret.Results {
+					x.results = append(x.results, e.ofAtEdge(res, b, i))
+				}
+				x.errTerm = x.results[ei]
+				x.kind, x.delegated = P.classifyErr(x.errTerm, fs)
+				vx = append(vx, x)
+			}
+			_, isPhi := ret.Results[ei].(*ssa.Phi)
+			mfs := P.transferBlock(in.clone(), b, ret)
+			mk, md := P.classifyErr(e.of(ret.Results[ei]), mfs)
+			sharper := isPhi && ret.Results[ei].(*ssa.Phi).Block() == b
+			for _, x := range vx {
+				if x.kind != mk || x.delegated != md {
+					sharper = true
+				}
+			}
+			if sharper && len(vx) > 0 {
+				r.exits = append(r.exits, vx...)
 				continue
 			}
 		}
